@@ -450,3 +450,7 @@ def guard_var_write(ctx, prog):
 guard_var_write.rule_id = "C06.GUARD-var-write"
 
 RULES = [data_order, data_gate, pdom_never, dtab_kinds, dtab_mapref, preserve_cutoff, guard_var_write]
+
+# control signature of the bookkeeping effects this property depends on (rules/ctrlsig.py)
+from .ctrlsig import make_rule as _ctrl_rule  # noqa: E402
+RULES.append(_ctrl_rule("C06"))
